@@ -1,7 +1,10 @@
 import SqlObjVerif.Model.CodecXChain
 import SqlObjVerif.Lemmas.CodecX
+import SqlObjVerif.Lemmas.CodecXInt
+import SqlObjVerif.Lemmas.CodecXFk
 import SqlObjVerif.Lemmas.CodecXSub
 import SqlObjVerif.Lemmas.CodecXBin
+import SqlObjVerif.Lemmas.CodecXMore
 /-!
 # CodecXChain — the translated validator chain of a column kind = the hand model's `toDb` / `toPy`
 -/
@@ -20,28 +23,86 @@ theorem runChain_one (f : VFun) (v : PyVal) : runChain [f] v = f v := by
   | none => rfl
   | some r => cases r <;> rfl
 
-theorem chainToDb_eq (T : ColT) (hT : translatedKind T = true) (v : PyVal) : chainToDb T v = some (Codec.toDb T v) := by
-  cases T <;> simp only [translatedKind, Bool.false_eq_true] at hT <;>
-    simp only [chainToDb, chainOf, chainString, chainUnicode, chainInt, chainBool, chainDateTime, chainDate, chainTime,
-      chainDecimal, chainEnum, chainBLOB, chainForeignKey, List.map, runChain_one] <;>
-    simp [fromOf, intFromPython, boolFromPython, stringFromPython, enumFromPython, dateFromPython, timeFromPython,
-      intToPython_eq, boolToPython_eq, stringToPython_eq, unicodeFromPython_eq, enumToPython_eq, fkFromPython_int_eq,
-      fkFromPython_str_eq, dtFromPython_eq, dateToPython_eq, timeToPython_eq, decFromPython_eq, binFromPython_eq, Codec.toDb]
-  -- blob: Binary then String
-  · simp only [runChain, binFromPython_eq]
-    cases Codec.binFromPython v <;> simp [bindT, Codec.Res.bind, stringToPython_eq]
-    rename_i a; cases Codec.stringV false a <;> rfl
+/-- a chain of total model functions -/
+theorem runChain_two (f g : PyVal → Codec.Res PyVal) (v : PyVal) :
+    runChain [fun a => some (f a), fun a => some (g a)] v = some ((f v).bind g) := by
+  simp only [runChain]
+  cases f v with
+  | ok a => simp only [bindT, Codec.Res.bind]; cases g a <;> rfl
+  | _ => rfl
 
-theorem chainToPy_eq (T : ColT) (hT : translatedKind T = true) (v : PyVal) : chainToPy T v = some (Codec.toPy T v) := by
-  cases T <;> simp only [translatedKind, Bool.false_eq_true] at hT <;>
+theorem runChain_three (f g h : PyVal → Codec.Res PyVal) (v : PyVal) :
+    runChain [fun a => some (f a), fun a => some (g a), fun a => some (h a)] v = some (((f v).bind g).bind h) := by
+  simp only [runChain]
+  cases f v with
+  | ok a =>
+    simp only [bindT, Codec.Res.bind]
+    cases g a with
+    | ok b => simp only [Codec.Res.bind]; cases h b <;> rfl
+    | _ => rfl
+  | _ => rfl
+
+theorem fn_string (dec : Bool) : runV (cfgString dec) stringToPython = fun v => some (Codec.stringV dec v) := by
+  funext v; exact stringToPython_eq dec v
+theorem fn_binFrom : runV Cfg.base binFromPython = fun v => some (Codec.binFromPython v) := by
+  funext v; exact binFromPython_eq v
+theorem fn_binTo : runV Cfg.base binToPython = fun v => some (Codec.binToPython v) := by
+  funext v; exact binToPython_eq v
+theorem fn_pickleFrom : runV Cfg.base pickleFromPython = fun v => some (pickleFromM v) := by
+  funext v; exact pickleFromPython_eq v
+theorem fn_pickleTo : runV Cfg.base pickleToPython = fun v => some (pickleToM v) := by
+  funext v; exact pickleToPython_eq v
+theorem fn_decStrFrom : runV cfgDecStr decStrFromPython = fun v => some (Codec.toDb .decimalString v) := by
+  funext v; exact decStrFromPython_eq v
+theorem fn_decStrTo : runV cfgDecStr decStrToPython = fun v => some (decStrToM v) := by
+  funext v; exact decStrToPython_eq v
+
+/-- what the Binary validator hands to the Pickle validator -/
+theorem binToPython_shape (v y : PyVal) (h : Codec.binToPython v = .ok y) : y = .none ∨ ∃ b, y = .bytes b := by
+  cases v <;> simp [Codec.binToPython] at h
+  · exact Or.inl h.symm
+  · split at h
+    · split at h
+      · exact Or.inr ⟨_, (Codec.Res.ok.inj h).symm⟩
+      · cases h
+    · cases h
+  · exact Or.inr ⟨_, h.symm⟩
+
+theorem chainToDb_eq (T : ColT) (_hT : translatedKind T = true) (v : PyVal) : chainToDb T v = some (Codec.toDb T v) := by
+  cases T <;>
+    simp only [chainToDb, chainOf, chainString, chainUnicode, chainInt, chainBool, chainDateTime, chainDate, chainTime,
+      chainDecimal, chainEnum, chainBLOB, chainForeignKey, chainFloat, chainDecimalString, chainPickle, chainUuid, chainJSON,
+      List.map, runChain_one] <;>
+    simp [fromOf, strDec, intFromPython, boolFromPython, stringFromPython, enumFromPython, dateFromPython, timeFromPython,
+      floatFromPython, intToPython_eq, boolToPython_eq, stringToPython_eq, unicodeFromPython_eq, enumToPython_eq,
+      fkFromPython_int_eq, fkFromPython_str_eq, dtFromPython_eq, dateToPython_eq, timeToPython_eq, decFromPython_eq,
+      floatToPython_eq, uuidFromPython_eq, jsonFromPython_eq, Codec.toDb]
+  -- decimalString: DecimalString then String(dataType=Decimal)
+  · rw [fn_decStrFrom, fn_string, runChain_two]; cases v <;> rfl
+  -- blob: Binary then String
+  · rw [fn_binFrom, fn_string, runChain_two]
+  -- pickle: Pickle, Binary, String
+  · rw [fn_pickleFrom, fn_binFrom, fn_string, runChain_three]; cases v <;> rfl
+
+theorem chainToPy_eq (T : ColT) (_hT : translatedKind T = true) (v : PyVal) : chainToPy T v = some (Codec.toPy T v) := by
+  cases T <;>
     simp only [chainToPy, chainOf, chainString, chainUnicode, chainInt, chainBool, chainDateTime, chainDate, chainTime,
-      chainDecimal, chainEnum, chainBLOB, chainForeignKey, List.reverse_cons, List.reverse_nil, List.nil_append,
-      List.cons_append, List.map, runChain_one] <;>
-    simp [toOf, intToPython_eq, boolToPython_eq, stringToPython_eq, unicodeToPython_eq, enumToPython_eq,
-      dtToPython_dt_eq, dateToPython_eq, timeToPython_eq, decToPython_eq, binToPython_eq, Codec.toPy]
-  · simp only [runChain, stringToPython_eq]
-    cases Codec.stringV false v <;> simp [bindT, Codec.Res.bind, binToPython_eq]
-    rename_i a; cases Codec.binToPython a <;> rfl
+      chainDecimal, chainEnum, chainBLOB, chainForeignKey, chainFloat, chainDecimalString, chainPickle, chainUuid, chainJSON,
+      List.reverse_cons, List.reverse_nil, List.nil_append, List.cons_append, List.map, runChain_one] <;>
+    simp [toOf, strDec, intToPython_eq, boolToPython_eq, stringToPython_eq, unicodeToPython_eq, enumToPython_eq,
+      dtToPython_dt_eq, dateToPython_eq, timeToPython_eq, decToPython_eq, floatToPython_eq, uuidToPython_eq,
+      jsonToPython_eq, Codec.toPy]
+  · rw [fn_string, fn_decStrTo, runChain_two]; cases v <;> rfl
+  · rw [fn_string, fn_binTo, runChain_two]
+  · rw [fn_string, fn_binTo, fn_pickleTo, runChain_three]
+    cases h : (Codec.stringV false v).bind Codec.binToPython with
+    | ok y =>
+      have hy : y = .none ∨ ∃ b, y = .bytes b := by
+        cases hs : Codec.stringV false v with
+        | ok a => rw [hs] at h; exact binToPython_shape a y h
+        | _ => rw [hs] at h; cases h
+      rcases hy with rfl | ⟨b, rfl⟩ <;> rfl
+    | _ => rfl
 
 theorem readBackT_eq (T : ColT) (hT : translatedKind T = true) (x : PyVal) :
     readBackT T x = some (Codec.readBack T x) := by
